@@ -288,13 +288,18 @@ func SubscribeWithReplay[T any](
 	}
 
 	// Load last offset for this subscription
-	lastOffset, _ := subStore.LoadOffset(ctx, subscriptionID)
+	lastOffset, err := subStore.LoadOffset(ctx, subscriptionID)
+	if err != nil {
+		// Replaying from the oldest event instead would deliver events again
+		// whose position had been saved
+		return fmt.Errorf("load subscription offset: %w", err)
+	}
 
 	// Replay missed events
 	var eventType = reflect.TypeOf((*T)(nil)).Elem()
 	// Use consistent type naming with EventType() function
 	typeName := eventType.String()
-	err := bus.Replay(ctx, lastOffset, func(stored *StoredEvent) error {
+	err = bus.Replay(ctx, lastOffset, func(stored *StoredEvent) error {
 		// Apply upcasts if available
 		eventData, eventTypeName := stored.Data, stored.Type
 		if bus.upcastRegistry != nil {
